@@ -45,6 +45,8 @@ class Gen:
         self.free_cases = []
         self.done = set()
         self.last_sub = []
+        self.slow_hint = []      # nodes whose completion schedules like to delay (ctl 'starve')
+        self.pending_outside = []  # shared dependencies of candidates that the one-of consumer reads as well
 
     def new_node(self, **kw):
         nid = f'N{self.n}'
@@ -128,6 +130,11 @@ class Gen:
             pname = 'abcdef'[i]
             mark = self.make_mark(node, local_visible, depth, in_rec, in_cand)
             node['params'].append([pname, mark])
+            if mark[0] == 'oneof' and self.pending_outside:
+                for s_id in self.pending_outside:
+                    if s_id not in [m[1] for _, m in node['params'] if m[0] == 'in']:
+                        node['params'].append([f'q{len(node["params"])}', ['in', s_id]])
+                self.pending_outside = []
             if mark[0] == 'rec':
                 inner = [x for x in self.last_sub if x != mark[2]]
                 self.rec_done[nid] = inner
@@ -209,7 +216,7 @@ class Gen:
         if reuse is None:
             dn['plan']['labels'] = list(labels)
         if reuse is None and self.hostile == 'switch_unknown_label' and 'switch_unknown_label' not in self.injected:
-            unknown = rng.choice(['ZZZ', 'ZZZ', None, 0, ''])      # a label no case declares (incl. None / falsy)
+            unknown = rng.choice(['ZZZ', None, None, 0, ''])      # a label no case declares (incl. None / falsy)
             dn['plan']['labels'] = list(labels) + ['ZZZ']
             dn['plan']['label_by_input'] = {str(rng.choice(self.p['inputs'])): unknown}
             self.injected.add('switch_unknown_label')
@@ -225,13 +232,53 @@ class Gen:
             self.unnamed_deciders.add(decider)
         return ['sw', name, decider, cases]
 
+    def contain_shape(self, c, visible):
+        """Containment shape (C10): candidate `c` gets a private dependency that always fails and a dependency S
+        that a consumer outside the candidate needs as well, so S may still be in flight when the candidate is
+        lost.  Both are defined before the candidate."""
+        rng = self.rng
+        node = self.nodes[c]
+        at = self.order.index(c)
+        used = [m[1] for _, m in node['params'] if m[0] == 'in']
+        sh = [x for x in self.shareable(visible, False) if x != 'N0' and x != c and self.order.index(x) < at]
+        if sh and rng.random() < 0.5:
+            s_id = rng.choice(sh)
+        else:
+            sn = self.new_node()
+            sn['params'].append(['a', ['in', 'N0']])
+            if rng.random() < 0.3:
+                sn['mode'] = 'async'
+            self.order.insert(at, sn['id'])
+            self.done.add(sn['id'])
+            s_id = sn['id']
+            at += 1
+        fz = self.new_node()
+        fz['params'].append(['a', ['in', 'N0']])
+        fz['plan']['fail'] = ['ALWAYS', rng.choice(['E1', 'E2', 'EOther'])]
+        self.order.insert(at, fz['id'])
+        self.done.add(fz['id'])
+        if s_id not in used:
+            node['params'].append([f's{len(node["params"])}', ['in', s_id]])
+        node['params'].append([f'f{len(node["params"])}', ['in', fz['id']]])
+        self.slow_hint.append(s_id)
+        if s_id not in visible:
+            visible.append(s_id)
+        return s_id
+
     def make_oneof(self, visible, depth, in_rec, in_cand):
         rng = self.rng
         n = rng.randint(1, 3)
+        contain = not in_rec and self.budget >= 2 and rng.random() < self.p.get('p_contain_shape', 0.1)
+        if contain:
+            n = max(n, 2)
         cands = []
+        outside = []
         for i in range(n):
             c = self.make(list(visible), depth - 1, in_rec=in_rec, in_cand=True, role='cand')
             cands.append(c)
+            if contain and i == 0 and self.nodes[c]['kind'] == 'plain' and not self.nodes[c].get('start_of') \
+                    and not self.nodes[c]['plan'].get('fail'):
+                outside.append(self.contain_shape(c, visible))
             visible.append(c)
             if rng.random() < self.p.get('p_cand_falsy', 0.12) and self.nodes[c]['kind'] == 'plain':
                 # a candidate whose legitimate value is None / falsy still wins its one-of
@@ -252,6 +299,7 @@ class Gen:
                 if rng.random() < 0.5:
                     ins = list(self.p['inputs'])
                     node['plan']['fail_when'] = sorted(rng.sample(ins, rng.randint(1, len(ins) - 1)))
+        self.pending_outside = outside
         return ['oneof', cands]
 
     def make_inner_rec(self, outer_sub, visible):
@@ -384,6 +432,8 @@ class Gen:
         self.budget += 1
         out = self.make(['N0'], self.p['max_depth'])
         prog = {'nodes': self.nodes, 'order': self.order, 'input': 'N0', 'output': out}
+        if self.slow_hint:
+            prog['hints'] = {'slow': list(self.slow_hint)}
         return prog
 
 
